@@ -204,6 +204,60 @@ Definition prefix_entry (i y m pfx : string) (e : path * node) : option string :
 Definition prefix_matches (nm : names) (s : fs) (i : string) (ts : Z) : list string :=
   filter_map (prefix_entry i (fst (n_ym nm ts)) (snd (n_ym nm ts)) (n_tsname nm ts)) s.
 
+(* gpfile.binarySearchPrefix, literally: bisection over the sorted entry names of the month directory; when it
+   lands on a merge backup, a scan to the left (down to low) and then to the right (up to high) over the
+   adjacent names with the prefix looks for the day directory *)
+Definition nthz (arr : list string) (i : Z) : string := nth (Z.to_nat i) arr EmptyString.
+Fixpoint scan_left (arr : list string) (pfx : string) (n : nat) (i low : Z) : option string :=
+  match n with
+  | O => None
+  | S n' => if low <=? i then
+              let e := nthz arr i in
+              if has_prefix pfx e then (if negb (is_backup e) then Some e else scan_left arr pfx n' (i - 1) low)
+              else None
+            else None
+  end.
+Fixpoint scan_right (arr : list string) (pfx : string) (n : nat) (i high : Z) : option string :=
+  match n with
+  | O => None
+  | S n' => if i <=? high then
+              let e := nthz arr i in
+              if has_prefix pfx e then (if negb (is_backup e) then Some e else scan_right arr pfx n' (i + 1) high)
+              else None
+            else None
+  end.
+Fixpoint bsearch (fuel : nat) (arr : list string) (pfx : string) (low high : Z) : option string :=
+  match fuel with
+  | O => None
+  | S f =>
+    if high <? low then None else
+    let mid := (low + high) / 2 in
+    let e := nthz arr mid in
+    if has_prefix pfx e then
+      if negb (is_backup e) then Some e
+      else match scan_left arr pfx (List.length arr) (mid - 1) low with
+           | Some x => Some x
+           | None => scan_right arr pfx (List.length arr) (mid + 1) high
+           end
+    else if String.ltb e pfx then bsearch f arr pfx (mid + 1) high else bsearch f arr pfx low (mid - 1)
+  end.
+Definition month_entry (i y m : string) (e : path * node) : option string :=
+  match e with
+  | ([i'; y'; m'; dn], _) => if String.eqb i' i && String.eqb y' y && String.eqb m' m then Some dn else None
+  | _ => None
+  end.
+(* os.ReadDir of the month directory: names in byte order *)
+Definition month_names (nm : names) (s : fs) (i : string) (ts : Z) : list string :=
+  sort_by String.leb (filter_map (month_entry i (fst (n_ym nm ts)) (snd (n_ym nm ts))) s).
+Definition prefix_search (nm : names) (s : fs) (i : string) (ts : Z) : option string :=
+  let arr := month_names nm s i ts in
+  bsearch (S (List.length arr)) arr (n_tsname nm ts) 0 (Z.of_nat (List.length arr) - 1).
+(* the directory name a DirWriter opens (genWritePathForTimestamp) / a DirReader recovers to (recoverDirPath) *)
+Definition write_target (nm : names) (s : fs) (i : string) (ts : Z) : string :=
+  match prefix_search nm s i ts with Some n => n | None => n_tsname nm ts end.
+Definition recover_target (nm : names) (s : fs) (i : string) (ts : Z) : string :=
+  match prefix_search nm s i ts with Some n => n | None => EmptyString end.
+
 Definition tolerance (o : opts) : Z := if o_tol o <=? 0 then 300 else o_tol o.
 Definition dir_ts (ts : Z) : Z := Z.quot ts 86400 * 86400.
 
